@@ -157,8 +157,13 @@ def updateMul (s : Dyn) (m : MulD) (v : Str) : Except Err Dyn :=
   .ok { s with vals := upd s.vals m.name (s.vals m.name ++ [v]), dirtyM := upd s.dirtyM m.name true }
 
 /-- What one positive occurrence adds: the letter's multiplicity in a short token, one for a long one. -/
+def letterCount (t : TogD) (ls : Str) : Int :=
+  match t.short with
+  | some c => (ls.count c : Int)
+  | none => 0
+
 def togInc (t : TogD) (u : UI) : Int :=
-  if u.isShort then (match t.short with | some c => (u.shortList.count c : Int) | none => 0) else 1
+  if u.isShort then letterCount t u.shortList else 1
 
 def updateTog (s : Dyn) (t : TogD) (u : UI) : Except Err Dyn :=
   if u.hasValue then .error .user                 -- a toggle cannot be given a value
